@@ -257,11 +257,52 @@ def norm_result(r, is_impl):
     return ("ok", canon(r))
 
 
+WORDING_FALLBACK = [0]
+
+
+def _entity_texts(x):
+    """Text forms of the entities a model error names (for the wording-independent comparison)."""
+    if isinstance(x, str):
+        return [x]
+    if isinstance(x, bool):
+        return ["true" if x else "false"]
+    if isinstance(x, dict):
+        if "s" in x:
+            return [x["s"]]
+        if "i" in x:
+            return [str(x["i"])]
+        return []
+    if isinstance(x, list):
+        out = []
+        for y in x[1:] if x and isinstance(x[0], str) and x[0] in C.COMPARED else x:
+            out += _entity_texts(y)
+        return out
+    return []
+
+
+def _innermost_class(e):
+    while e and e[0] == "nodeFailed" and len(e) > 2 and isinstance(e[2], list):
+        e = e[2]
+    return e[0] if e else None
+
+
 def results_agree(impl, model):
     a = norm_result(impl, True)
     b = norm_result(model, False)
     if a[0] == "panic" and b[0] == "panic":
         return True
+    if a == b:
+        return True
+    if a[0] == "err" and b[0] == "err" and isinstance(impl.get("err"), str):
+        # The implementation's errors are text; the classifier recognises today's wording. A message it does
+        # not recognise (reworded upstream) still agrees with the model's error when it names every entity the
+        # model's error names -- the properties constrain that an error is raised and what it names, not its wording.
+        raw = impl["err"]
+        cls = C.classify(raw)
+        if cls and (cls[0] == "other" or _innermost_class(cls) == "other"):
+            if all(t in raw for t in _entity_texts(b[1])):
+                WORDING_FALLBACK[0] += 1
+                return True
     return a == b
 
 
